@@ -5,9 +5,11 @@ CONSTANTS
   PortCap = 1
   MCFrames <- Frames2
   FrameChunks = 2
-  MaxMig = 2
+  MaxMig = 3
   Serial = TRUE
   Requesters = {1, 2}
+  MCPages <- Pages1
+  SkipZero = FALSE
   AcceptGuard = "handling"
 INVARIANTS TypeOK ContentsCopied NothingElseChanged CompleteOnce OneAtATime RoutedBack InRange AllServed
 CHECK_DEADLOCK FALSE
